@@ -29,8 +29,8 @@ func init() {
 		Run: runC11,
 		Controls: []Mutant{
 			{Name: "override-check-only-when-default-restricted", File: "guidedremediation/internal/strategy/override/override.go",
-				Old: "				if _, diff, _ := vk.System.Semver().Difference(vk.Version, ver.Version); !opts.UpgradeConfig.Get(vk.Name).Allows(diff) {\n					break\n				}",
-				New: "				if _, diff, _ := vk.System.Semver().Difference(vk.Version, ver.Version); opts.UpgradeConfig.Get(\"\") != upgrade.Major && !opts.UpgradeConfig.Get(vk.Name).Allows(diff) {\n					break\n				}",
+				Old:  "				if _, diff, _ := vk.System.Semver().Difference(vk.Version, ver.Version); !opts.UpgradeConfig.Get(vk.Name).Allows(diff) {\n					break\n				}",
+				New:  "				if _, diff, _ := vk.System.Semver().Difference(vk.Version, ver.Version); opts.UpgradeConfig.Get(\"\") != upgrade.Major && !opts.UpgradeConfig.Get(vk.Name).Allows(diff) {\n					break\n				}",
 				Rule: "D1-level-guard", Site: "override"},
 			{Name: "override-default-level", File: "guidedremediation/internal/strategy/override/override.go",
 				Old: "!opts.UpgradeConfig.Get(vk.Name).Allows(diff)", New: "!opts.UpgradeConfig.Get(\"\").Allows(diff)", Rule: "D2-right-level", Site: "override"},
